@@ -74,20 +74,25 @@ func c02(c *vc.Ctx) {
 		}
 	}
 	reduced := c02ReducedConfigs()
-	c.Rule = space.describe() + fmt.Sprintf(" + %d hand-written layout-sensitive programs (c02_extra.go) in every variant; configurations without KeepPadding (and without the refused Minify+SingleLine): all %d for corpus and depth<=1 programs, %d representative ones for layout-deviation and depth-2 programs, each also with Simplify applied before printing (reduced set); oracle: Print(Parse(P1)) == P1 byte for byte where P1 = Print(Parse(src)) (with Simplify: P1 = Print(Simplify(Parse(src))), P2 = Print(Simplify(Parse(P1)))); every failing configuration of an input is classified, one failure is reported per (input, variant); distinct = distinct P1 texts", len(c02Extra), len(fullConfigs), len(reduced))
+	c.Rule = space.describe() + fmt.Sprintf(" + %d hand-written layout-sensitive programs (c02_extra.go) in every variant; configurations without KeepPadding (and without the refused Minify+SingleLine): all %d for corpus and depth<=1 programs, %d representative ones for layout-deviation and depth-2 programs, each also with Simplify applied before printing (reduced set); %s; oracle: Print(Parse(P1)) == P1 byte for byte where P1 = Print(Parse(src)) (with Simplify: P1 = Print(Simplify(Parse(src))), P2 = Print(Simplify(Parse(P1)))); every failing configuration of an input is classified, one failure is reported per (input, variant); distinct = distinct P1 texts", len(c02Extra)+len(synPairSignAtoms()), len(fullConfigs), len(reduced), synPairRule(c.Quick(), len(fullConfigs), len(reduced), 3))
 	c.Assumptions = []string{"P1 not reparsing, or Print failing, is C01's business and not judged here"}
 	gen := func(emit func(synCase)) {
-		if os.Getenv("VERIF_C02_EXTRA_ONLY") == "" {
+		if os.Getenv("VERIF_C02_EXTRA_ONLY") == "" && os.Getenv("VERIF_C02_PAIRS_ONLY") == "" {
 			genSyn(c, space, emit)
 		} else {
-			c.CapNote("VERIF_C02_EXTRA_ONLY set: only the hand-written programs were run (development aid)")
+			c.CapNote("VERIF_C02_EXTRA_ONLY / VERIF_C02_PAIRS_ONLY set: only the hand-written programs and the statement pairs were run (development aid)")
 		}
-		for _, src := range c02Extra {
+		for _, src := range append(append([]string{}, c02Extra...), synPairSignAtoms()...) {
 			for _, v := range synt.Variants {
 				emit(synCase{src, v.Name, 0})
 			}
 		}
+		genSynPairs(c.Quick(), emit)
 	}
+	// statement pairs (c01c02_pairs.go): core x core pairs get the larger
+	// configuration set of the tier, all pairs the smaller one
+	pairSmall := []synt.Config{{}, {Minify: true}, {Single: true}}
+	pairCore, pairAll := vc.Pick(c, reduced, fullConfigs), vc.Pick(c, pairSmall, reduced)
 	complete := vc.Run(c, gen, func(t synCase) *vc.Fail {
 		ws := synt.GetWorkspace()
 		defer synt.PutWorkspace(ws)
@@ -99,8 +104,15 @@ func c02(c *vc.Ctx) {
 			return nil
 		}
 		c.Count("pairs_parsing", 1)
-		cfgs := fullConfigs
-		if t.Kind >= 2 {
+		cfgs, simpCfgs := fullConfigs, reduced
+		switch {
+		case t.Kind == synKindPairCore:
+			cfgs = pairCore
+		case t.Kind == synKindPair:
+			cfgs, simpCfgs = pairAll, pairAll
+		case t.Kind == synKindPairCtx:
+			cfgs, simpCfgs = pairSmall, pairSmall
+		case t.Kind >= 2:
 			cfgs = reduced
 		}
 		checked := map[string]bool{}
@@ -182,7 +194,7 @@ func c02(c *vc.Ctx) {
 		fs, err := ws.Parse(t.Src, lang)
 		if err == nil {
 			syntax.Simplify(fs)
-			for _, cfg := range reduced {
+			for _, cfg := range simpCfgs {
 				if fl := one(cfg, true, fs); fl != nil {
 					return fl
 				}
